@@ -40,6 +40,8 @@ pub static POOL_OVER: AtomicUsize = AtomicUsize::new(0);
 pub static POOL_PEAK: AtomicUsize = AtomicUsize::new(0);
 pub static SPAWN_EVENTS: AtomicUsize = AtomicUsize::new(0);
 pub static POOL_EXITS: AtomicUsize = AtomicUsize::new(0);
+pub static EXITS_AT_RUN_START: AtomicUsize = AtomicUsize::new(0);
+pub static SPAWNS_AT_RUN_START: AtomicUsize = AtomicUsize::new(0);
 static MONITOR: std::sync::OnceLock<thread::Thread> = std::sync::OnceLock::new();
 pub fn set_monitor_thread() { let _ = MONITOR.set(thread::current()); }
 /// Pool threads that have reported their exit (the report is made by the dying thread itself, while it is still unwinding):
@@ -101,6 +103,8 @@ pub fn on_spawn_event() {
 // Panic bookkeeping: expected panics are silenced, unexpected ones are recorded with their thread
 
 pub static PANICS: Mutex<Vec<(String, String)>> = Mutex::new(Vec::new());
+/// The last few panics of the process, across runs (diagnosis only)
+pub static RECENT_PANICS: Mutex<Vec<String>> = Mutex::new(Vec::new());
 
 static VERBOSE_PANICS: AtomicBool = AtomicBool::new(false);
 pub fn install_panic_hook() {
@@ -112,6 +116,7 @@ pub fn install_panic_hook() {
         let loc = info.location().map(|l| { let f = l.file(); let tail = match f.rfind("src/") { Some(i) => &f[i..], None => f }; format!("{}:{}", tail, l.line()) }).unwrap_or_default();
         if name == "main" { eprintln!("MONITOR THREAD PANICKED: {} @ {}", msg, loc); }
         if VERBOSE_PANICS.load(Ordering::Relaxed) { eprintln!("PANIC on '{}': {} @ {}", name, msg, loc); }
+        if let Ok(mut p) = RECENT_PANICS.lock() { if p.len() >= 12 { p.remove(0); } p.push(format!("{}: {} @ {}", name, msg, loc)); }
         if let Ok(mut p) = PANICS.lock() { if p.len() < 256 { p.push((name, format!("{} @ {}", msg, loc))); } }
     }));
 }
@@ -188,6 +193,9 @@ fn current_state() -> String {
         Some(ctx) => {
             let mut s = format!("template {} pool {} threads_done {} incomplete [{}] scheduler [{:?}] live_pool {}", ctx.prog.template, ctx.prog.pool, ctx.threads_done.load(Ordering::SeqCst),
                 incomplete_list(ctx, false), scheduler(), live_pool());
+            s.push_str(&format!(" pool_mode {:?} spawn_events {} (at run start {}) exits {} (at run start {})", ctx.prog.pool_mode, SPAWN_EVENTS.load(Ordering::SeqCst), SPAWNS_AT_RUN_START.load(Ordering::SeqCst), POOL_EXITS.load(Ordering::SeqCst), EXITS_AT_RUN_START.load(Ordering::SeqCst)));
+            if let Ok(p) = PANICS.try_lock() { s.push_str(&format!(" panics so far in this run {:?}", p.iter().map(|(n, m)| format!("{}: {}", n, m)).collect::<Vec<_>>())); }
+            if let Ok(p) = RECENT_PANICS.try_lock() { s.push_str(&format!(" last panics of the process {:?}", *p)); }
             #[cfg(feature = "hooks")]
             for i in 0..ctx.prog.n_obj { if let Some(d) = ctx.obj(i) { s.push_str(&format!(" obj{}=[{:?}]", i, d.verif_queue())); } }
             for b in ctx.blocking.iter() { let v = b.load(ORD); if v != 0 { s.push_str(&format!(" blocked[{} in {}]", subject_name(ctx, (v >> 16) as usize - 1), phase_name((v >> 8) & 0xff))); } }
@@ -307,6 +315,7 @@ pub fn run_program(prog: Program, opts: &Opts, plan: noise::Plan) -> RunResult {
     POOL_OVER.store(0, Ordering::SeqCst);
     if DYING.lock().map(|d| d.len() > 32).unwrap_or(false) { let _ = dying_threads_gone(); }   // forget threads that are long gone
     let exits0 = POOL_EXITS.load(Ordering::SeqCst);
+    EXITS_AT_RUN_START.store(exits0, Ordering::SeqCst); SPAWNS_AT_RUN_START.store(SPAWN_EVENTS.load(Ordering::SeqCst), Ordering::SeqCst);
     let noted0 = DYING_NOTED.load(Ordering::SeqCst);
     let pnoted0 = PANIC_NOTED.load(Ordering::SeqCst);
     POOL_PEAK.store(live_pool(), Ordering::SeqCst);
@@ -439,13 +448,20 @@ pub fn run_program(prog: Program, opts: &Opts, plan: noise::Plan) -> RunResult {
     }
 
     // later phases of multi-phase scenarios (C15, C17)
+    std::sync::atomic::fence(Ordering::Acquire);   // pairs with the release fence before every end stamp (see Span::drop)
     let phases = ctx.prog.phases.clone();
     let exits_at_start = exits0;
     for ph in phases.iter() {
         if outcome != Outcome::Completed { break; }
         // the panic scenarios only make sense once the injected panic has really happened (a try_sync that found the object busy
         // does not run its closure): otherwise the run ends here and counts as trivial
-        if ctx.prog.profile == "C15" && ctx.prog.panics && ctx.expected_panic_seen.load(Ordering::SeqCst) == 0 { break; }
+        // (decided from the operation records this thread has already seen while waiting for phase 0: in the interpreter's build the
+        // harness's own atomics are Relaxed, and a separate counter written by the panicking thread may still read as zero here)
+        if ctx.prog.profile == "C15" && ctx.prog.panics && !(0..ctx.prog.ops.len()).any(|i| ctx.recs[i].outcome.load(ORD) == 5) {
+            // only a try_sync closure can legitimately not have run (Busy); anything else means the harness lost track
+            if ctx.prog.ops.iter().any(|o| o.kind == Kind::TrySync && o.body.contains(&Step::Panic)) { break; }
+            eprintln!("HARNESS BUG: phase 0 of a panic scenario is complete but no operation is recorded as panicked"); std::process::exit(2);
+        }
         if ph.wait_pool_exit {
             // "once the panic has finished unwinding": every pool thread that ran a panicking body has exited
             let need = ctx.prog.ops.iter().enumerate().filter(|(i, _)| ctx.recs[*i].outcome.load(ORD) == 5 && ctx.recs[*i].runner.load(ORD) == 1).count();
